@@ -168,7 +168,13 @@ def _oracle_with_watchdog(sub, case):
 def evaluate(sub, case, res, want_samples=3):
     """run the oracle on one case, recording instead of raising"""
     try:
-        r = _oracle_with_watchdog(sub, case)
+        if isinstance(case, dict) and case.get("__checkdefs__"):
+            from pv import model
+
+            model.check_all_definitions()
+            r = Res(False, ["definitions-walkable"])
+        else:
+            r = _oracle_with_watchdog(sub, case)
     except Fail as f:
         bucket = f"{sub.name}|{f.clause}"
         ent = res.failures.get(bucket)
@@ -181,8 +187,22 @@ def evaluate(sub, case, res, want_samples=3):
         return bucket
     except HarnessError:
         raise
-    except Exception as e:  # pylint: disable=broad-except
+    except BaseException as e:  # pylint: disable=broad-except
         from pv.model import BadDefinition
+
+        if type(e).__name__ == "HardStop":
+            # the code under test swallowed the budget Fail and kept calling the stream
+            bucket = f"{sub.name}|non-termination"
+            ent = res.failures.get(bucket)
+            if ent is None:
+                res.failures[bucket] = {"case": case, "msg": "stream / socket called far beyond its call budget (exceptions from the double were swallowed)", "count": 1}
+            else:
+                ent["count"] += 1
+            res.evals += 1
+            res.cases += 1
+            return bucket
+        if not isinstance(e, Exception):
+            raise
 
         if isinstance(e, BadDefinition):
             # the repository's definition table is malformed: a verdict (C03/C10), not a harness fault
@@ -258,6 +278,15 @@ def run_shard(sub, tier, seed, shard, nshards, scale=1.0):
             drive()
         except hypothesis.errors.FailedHealthCheck as e:
             raise HarnessError(f"{sub.name}/{label}: generator health check failed: {e}") from e
+        except Exception as e:  # pylint: disable=broad-except
+            from pv.model import BadDefinition
+
+            if not isinstance(e, BadDefinition):
+                raise
+            # the generator itself could not walk a definition: a verdict about the tables (replayable case)
+            evaluate(sub, {"__checkdefs__": True}, res)
+            if not res.failures:
+                raise
         for b in set(res.failures) - before:
             res.failures[b]["label"] = label
     res.wall = time.monotonic() - t0
